@@ -41,17 +41,27 @@ fn check_roundtrip(o: &mut Outcome, p: &Paragraph, feats: &[String]) {
         Ok(Err(e)) => o.v("C08", "lossless_reads_same", "Deb822::from_str", "mismatch", feats, &text, format!("printed paragraph rejected: {:?}", e)),
         Err(m) => o.v("C08", "lossless_reads_same", "Deb822::from_str", "panic", feats, &text, m),
     }
-    // documents: two paragraphs print with exactly one blank line between them and read back equal
-    let doc_text = format!("{}\n{}", text, text);
-    match guarded("lossy::Deb822::from_str", || Deb822::from_str(&doc_text)) {
-        Ok(Ok(d)) => {
-            let ps: Vec<&Paragraph> = d.iter().collect();
-            if ps.len() != 2 || *ps[0] != *p || *ps[1] != *p { o.v("C08", "doc_reread", "lossy::Deb822::from_str", "mismatch", feats, &doc_text, format!("{} paragraphs", ps.len())); }
-            let printed = d.to_string();
-            if printed != doc_text { o.v("C08", "doc_print", "lossy::Deb822 Display", "mismatch", feats, &doc_text, format!("printed {:?}", printed)); }
+    // documents: 2-5 paragraphs (the paragraph, and the paragraph with one more field, alternating) print with exactly
+    // one blank line between them and read back equal, paragraph by paragraph
+    let mut q = p.clone();
+    q.insert("Zz-Extra", "more");
+    let qtext = q.to_string();
+    for n in 2..=5usize {
+        let members: Vec<(&Paragraph, &String)> = (0..n).map(|i| if i % 2 == 0 { (p, &text) } else { (&q, &qtext) }).collect();
+        let doc_text = members.iter().map(|(_, t)| t.as_str()).collect::<Vec<_>>().join("\n");
+        match guarded("lossy::Deb822::from_str", || Deb822::from_str(&doc_text)) {
+            Ok(Ok(d)) => {
+                let ps: Vec<&Paragraph> = d.iter().collect();
+                if ps.len() != n || ps.iter().zip(members.iter()).any(|(a, (b, _))| **a != **b) { o.v("C08", "doc_reread", "lossy::Deb822::from_str", "mismatch", feats, &doc_text, format!("{} paragraphs read, {} written", ps.len(), n)); }
+                if d.len() != n || d.is_empty() { o.v("C08", "doc_reread", "lossy::Deb822::len", "mismatch", feats, &doc_text, format!("len {}", d.len())); }
+                let printed = d.to_string();
+                if printed != doc_text { o.v("C08", "doc_print", "lossy::Deb822 Display", "mismatch", feats, &doc_text, format!("printed {:?}", printed)); }
+                let via_vec: Vec<Paragraph> = d.clone().into();
+                if via_vec.len() != n { o.v("C08", "doc_reread", "Vec<Paragraph>::from(lossy::Deb822)", "mismatch", feats, &doc_text, format!("{} paragraphs", via_vec.len())); }
+            }
+            Ok(Err(e)) => o.v("C08", "doc_reread", "lossy::Deb822::from_str", "mismatch", feats, &doc_text, format!("rejected: {}", e)),
+            Err(m) => o.v("C08", "doc_reread", "lossy::Deb822::from_str", "panic", feats, &doc_text, m),
         }
-        Ok(Err(e)) => o.v("C08", "doc_reread", "lossy::Deb822::from_str", "mismatch", feats, &doc_text, format!("rejected: {}", e)),
-        Err(m) => o.v("C08", "doc_reread", "lossy::Deb822::from_str", "panic", feats, &doc_text, m),
     }
 }
 
